@@ -237,7 +237,31 @@ def default_orders(op, orders, nargs):
     return o[:1]
 
 
-def emit(all_ops, out_path):
+# Reference-count call paths: the counter models assume that giving up a reference IS the decrement (and nothing else
+# decides about destruction).  For these functions the sequence of calls to the counter's own methods is generated too,
+# so that an added fast path (a Get()==1 test that deletes without the RMW) breaks an obligation.
+CALL_FUNCS = [("include/yaclib/util/helper.hpp", ["IncRef", "DecRef", "GetRef"]),
+              ("include/yaclib/util/detail/atomic_counter.hpp", ["Add", "Sub", "SubEqual"])]
+CALLEES = ["Add", "Sub", "SubEqual", "Get", "Delete", "fetch_add", "fetch_sub", "load", "store", "exchange",
+           "compare_exchange_weak", "compare_exchange_strong", "atomic_thread_fence"]
+
+
+def extract_calls(root):
+    out = []
+    pat = re.compile(r"\b(%s)\s*\(" % "|".join(CALLEES))
+    for path_rel, names in CALL_FUNCS:
+        src = preprocess(strip_comments(open(os.path.join(root, path_rel)).read()))
+        funcs = functions(src)
+        for name in names:
+            bodies = [(st, en) for st, en, n in funcs if n == name]
+            if len(bodies) != 1:
+                raise SystemExit("translate_orders: expected exactly one definition of %s in %s, found %d" % (name, path_rel, len(bodies)))
+            st, en = bodies[0]
+            out.append((path_rel, name, [m.group(1) for m in pat.finditer(src[st:en])]))
+    return out
+
+
+def emit(all_ops, out_path, calls=()):
     lines = ["(* GENERATED by tools/translate_orders.py from the source tree under check — do not edit. *)",
              "From Coq Require Import List String.", "Import ListNotations.", "From YV Require Import lib.RA.",
              "Local Open Scope string_scope.", "",
@@ -248,6 +272,10 @@ def emit(all_ops, out_path):
         items.append('  {| a_file := "%s"; a_func := "%s"; a_obj := "%s"; a_op := "%s"; a_ord := [%s]; a_line := %d |}' % (
             o["file"], o["func"], o["obj"], o["op"], "; ".join(ords), o["line"]))
     lines.append(";\n".join(items))
+    lines.append("].")
+    lines.append("")
+    lines.append("Definition calls : list (string * string * list string) := [")
+    lines.append(";\n".join('  ("%s", "%s", [%s])' % (f, n, "; ".join('"%s"' % c for c in cs)) for f, n, cs in calls))
     lines.append("].")
     text = "\n".join(lines) + "\n"
     os.makedirs(os.path.dirname(out_path), exist_ok=True)
@@ -264,7 +292,7 @@ def run(root, out_path):
         if not os.path.exists(p):
             raise SystemExit("translate_orders: anchored file missing: " + f)
         all_ops += extract(f, root)
-    emit(all_ops, out_path)
+    emit(all_ops, out_path, extract_calls(root))
     return all_ops
 
 
